@@ -52,6 +52,13 @@ func genC12(t *rapid.T) c12Case {
 		c.Inject = rapid.Bool().Draw(t, "inject")
 	}
 	c.BadMeta = rapid.IntRange(0, 5).Draw(t, "badmeta") == 0
+	if c.Inject {
+		// a message nobody receives keeps the reader inside the stream's packet buffer until the stream is closed
+		// (the root of known findings F5/F19): with a peer talking out of turn every call ends with Close
+		for i := range c.RPCs {
+			c.RPCs[i].NoFinalClose = false
+		}
+	}
 	c.Choices = rapid.SliceOfN(rapid.SampledFrom(c04Kinds), 0, 60).Draw(t, "choices")
 	return c
 }
